@@ -109,6 +109,13 @@ CLAIMED['C05'] = dict(
     note='Trusted: rustc MIR, the driver, 64-bit usize, callers respect documented index contracts, image::ImageBuffer::from_raw succeeds when the buffer length matches. Establishing comparisons are checked for operands and direction, not re-derived arithmetically.',
     technique='static analysis: panic-site inventory over the public-API cone + invariant/must-pass-through (dominance + error propagation) + interval domain')
 
+CLAIMED['C16'] = dict(
+    category='proof',
+    text='Clause 1 (Send + Sync) is proof-level: a witness crate applies fn req<T: Send + Sync>() to AsepriteFile and every exported value and handle type; the obligations are discharged by rustc\'s trait solver, with compile_fail twins (Rc wrapper -> E0277, &mut return -> E0308) showing the witnesses can fail. Clauses 2-6 are static rules over the MIR/ADT/HIR facts: the field-type closure of every exported type has no UnsafeCell/Cell/RefCell/Once*/Mutex/RwLock/Atomic*/Rc/raw pointer/dyn; no static mut, thread_local or user-written unsafe; every exported method other than the loaders takes self by shared reference or value and none returns &mut; the loader and accessor cones use no ambient input (time/env/thread/process/fs except File::open in read_file) and every hash-map iteration is on a reviewed list; every arithmetic trap/wrap site outside blend.rs is discharged and every truncating cast has its operand proven in range (interval, guard or named invariant). One truncation defect (layer ids beyond 65535) was repaired by a fix: commit.',
+    design_ref='DESIGN.md section 4, C16',
+    note='Only clause 1 is proof-level (trusted base: rustc trait solver, std auto-trait impls); clauses 2-6 are level other (static rules; trusted: rustc MIR, the driver, Rust aliasing rules). Not decided: blend.rs channel casts (C17), float determinism across targets, collection sizes bounded only by the input size fitting u32.',
+    technique='static analysis: compile-time type witnesses (rustc) + type-closure walk + HIR scan (static/unsafe) + who-may-call + interval domain for casts')
+
 ALL = ['C%02d' % i for i in range(1, 20)]
 
 
@@ -135,7 +142,7 @@ def main():
             na.append({'property_id': p, 'reason': PENDING})
     m = {
         'version': 1,
-        'setup_cmd': 'cd /verif/driver && CARGO_NET_OFFLINE=true cargo +nightly build --release --offline',
+        'setup_cmd': 'cd /verif/driver && CARGO_NET_OFFLINE=true cargo +nightly build --release --offline && cd /verif/witness && cp /repo/Cargo.lock Cargo.lock && CARGO_NET_OFFLINE=true cargo +nightly test --doc --offline --no-run',
         'hooks': {
             'guard': 'asefile_verif',
             'enable': 'no hooks: the driver reads the unmodified crate under the real cargo check build',
@@ -144,6 +151,8 @@ def main():
             'add_only': True,
         },
         'engines': [
+            {'name': 'witness', 'path': '/verif/witness', 'serves_properties': ['C16'],
+             'kind_free_text': 'compile-pass / compile_fail doc-test witnesses decided by rustc (cargo +nightly test --doc)'},
             {'name': 'asemir', 'path': '/verif/driver', 'serves_properties': sorted(CLAIMED),
              'kind_free_text': 'rustc_private driver (nightly) serialising MIR/ADT/HIR facts of /repo under cargo check; python rules in /verif/rules decide the properties from those facts'},
         ],
